@@ -159,7 +159,77 @@ def impl(case):
     out['wrapped'] = [[int(x) for x in v] for v in pw.wrapped_sites()]
     out['frac'] = np.asarray(pw.frac_sites()).tolist()
     out['inputs_changed'] = [] if np.array_equal(F, F0) else ['free-energy grid']
+    out['wrapper_problems'] = _wrappers(case, F0, dims)
     return out
+
+
+def _wrappers(case, F0, dims):
+    """the methods of FreeEnergyVolume are the functions of gemdat.path applied to the volume as it is at the time of the call:
+    first call, call with an explicit graph, call again after the grid was edited (voxels of the found path blocked)"""
+    import networkx as nx
+    from gemdat.path import free_energy_graph, optimal_n_paths, optimal_path
+    from gemdat.volume import FreeEnergyVolume
+    problems = []
+    qs = [q for q in case['queries'] if q['method'] in ('dijkstra', 'bellman-ford', 'minmax-energy', 'dijkstra-exp')][:2]
+    if not qs:
+        return problems
+    fe = FreeEnergyVolume(data=F0.copy(), lattice=synth.make_lattice([[5, 0, 0], [0, 6, 0], [0, 0, 7]]))
+
+    def sig(p):
+        return None if p is None else ([tuple(int(x) for x in v) for v in p.sites], [float(e) for e in p.energy])
+
+    def both(tag, f_method, f_module):
+        res = []
+        for f in (f_method, f_module):
+            try:
+                res.append(('value', f()))
+            except (nx.NetworkXNoPath, nx.NodeNotFound) as e:      # rejected alike by both entry points
+                res.append((type(e).__name__, None))
+        (ka, a), (kb, b) = res
+        if ka != kb or (ka == 'value' and sig(a) != sig(b)):
+            problems.append(f'{tag}: FreeEnergyVolume method gives {sig(a) if ka == "value" else ka}, gemdat.path on the same grid gives {sig(b) if kb == "value" else kb}')
+        elif ka == 'value' and tuple(int(d) for d in a.dims) != tuple(dims):
+            problems.append(f'{tag}: path dims {a.dims} are not the grid shape {dims}')
+        return a if ka == 'value' else None
+
+    g1 = fe.free_energy_graph(max_energy_threshold=case['thr8'] / SC, diagonal=case['diag'])
+    g2 = free_energy_graph(fe.data, max_energy_threshold=case['thr8'] / SC, diagonal=case['diag'])
+    if sorted(g1.nodes) != sorted(g2.nodes) or sorted(map(sorted, g1.edges)) != sorted(map(sorted, g2.edges)):
+        problems.append('FreeEnergyVolume.free_energy_graph differs from gemdat.path.free_energy_graph on the same grid')
+    for rnd in range(2):
+        for q in qs:
+            s, t = _node(dims, q['s']), _node(dims, q['t'])
+            kw = dict(start=s, stop=t, method=q['method'])
+            p = both(f'optimal_path round {rnd} {q["method"]}', lambda: fe.optimal_path(**kw),
+                     lambda: optimal_path(free_energy_graph(fe.data, max_energy_threshold=1e7), **kw))
+            both(f'optimal_path with explicit graph round {rnd} {q["method"]}', lambda: fe.optimal_path(F_graph=g2, **kw), lambda: optimal_path(g2, **kw))
+            if p is not None and len(p.sites) <= 6:
+                # (the search for further paths may take practically forever; both calls together get 1.5 s and are skipped beyond)
+                import signal
+
+                class _Timeout(Exception):
+                    pass
+
+                def _on_alarm(_sig, _frm):
+                    raise _Timeout()
+                old_handler = signal.signal(signal.SIGALRM, _on_alarm)
+                signal.setitimer(signal.ITIMER_REAL, 1.5)
+                try:
+                    a = fe.optimal_n_paths(n_paths=1, **kw)
+                    b = optimal_n_paths(free_energy_graph(fe.data, max_energy_threshold=1e7), n_paths=1, **kw)
+                    signal.setitimer(signal.ITIMER_REAL, 0)
+                    if [sig(x) for x in a] != [sig(x) for x in b]:
+                        problems.append(f'optimal_n_paths round {rnd} {q["method"]}: method and function differ on the same grid')
+                except (nx.NetworkXNoPath, nx.NodeNotFound, _Timeout):
+                    pass
+                finally:
+                    signal.setitimer(signal.ITIMER_REAL, 0)
+                    signal.signal(signal.SIGALRM, old_handler)
+            # edit the volume: block the interior voxels of the path just found (far above the default threshold of the methods)
+            if rnd == 0 and p is not None:
+                for v in p.sites[1:-1]:
+                    fe.data[tuple(int(x) % d for x, d in zip(v, dims))] = 1e30
+    return problems
 
 
 # ---------------------------------------------------------------- independent reference
@@ -238,6 +308,8 @@ def oracle(case, out):
     if 'queries' not in out:
         return [('c10/harness-error', f"{out.get('error')}: {out.get('msg')} {out.get('tb', '')[-500:]}")]
     fs = synth.inputs_clause(out, 'free_energy_graph / optimal_path / optimal_percolating_path')
+    for pr in out.get('wrapper_problems') or []:
+        fs.append(('path/volume-method-differs', pr))
     dims, en, thr = case['dims'], case['en8'], case['thr8']
     # adjp: the property's neighbourhood (faces, or faces + edges + corners); adjc: the moves the code uses
     adjp = _graph(dims, en, thr, case['diag'], MOVES26 if case['diag'] else MOVES6)
